@@ -11,3 +11,6 @@ func VerifInsert(m MemCache, id uint16, addr net.IP, tr TemplateRecord) { m.inse
 func VerifRetrieve(m MemCache, id uint16, addr net.IP) (TemplateRecord, bool) {
 	return m.retrieve(id, addr)
 }
+
+// VerifSetShardNo scales the number of shards down for schedule exploration.
+func VerifSetShardNo(n int) int { o := shardNo; shardNo = n; return o }
